@@ -141,21 +141,21 @@ Proof.
     cbn [tr_stat b_stat].
     pose proof (IH1 ltac:(assumption) ltac:(assumption) None flv g X ([] :: seg :: rest) en Heq Hx1) as A1.
     destruct (tr_exp e1 None flv g) as [a1 g1].
-    pose proof (IH3 ltac:(assumption) ltac:(assumption) None flv g1 X ([] :: seg :: rest) en Heq Hx3) as A3.
-    destruct (tr_exp e3 None flv g1) as [a3 g2].
-    pose proof (IH2 ltac:(assumption) ltac:(assumption) None flv g2 X ([] :: seg :: rest) en Heq Hx2) as A2.
-    destruct (tr_exp e2 None flv g2) as [a2 g3].
+    pose proof (IH2 ltac:(assumption) ltac:(assumption) None flv g1 X ([] :: seg :: rest) en Heq Hx2) as A2.
+    destruct (tr_exp e2 None flv g1) as [a2 g2].
+    pose proof (IH3 ltac:(assumption) ltac:(assumption) None flv g2 X ([] :: seg :: rest) en Heq Hx3) as A3.
+    destruct (tr_exp e3 None flv g2) as [a3 g3].
     destruct (IHb ltac:(assumption) ltac:(assumption) flv (slv + 1) g3 X [(n, vl)] (seg :: rest) ((n, vl) :: en)) as [seg' [A4 _]].
     { cbn [concat app]. apply EQX_cons. exact Heq. }
     { exact Hxb. }
     destruct (tr_block b flv (slv + 1) g3) as [a4 g4]. cbn [fst snd] in *.
     exists seg. split; [|exact Heq].
-    eapply SSim_eq; [| |apply (SSim_scope (a1 ++ a3 ++ a2 ++ AAdd (param_var n vl) :: a4) (seg :: rest) seg'
-                                          (b_exp en flv e1 ++ b_exp en flv e3 ++ b_exp en flv e2
+    eapply SSim_eq; [| |apply (SSim_scope (a1 ++ a2 ++ a3 ++ AAdd (param_var n vl) :: a4) (seg :: rest) seg'
+                                          (b_exp en flv e1 ++ b_exp en flv e2 ++ b_exp en flv e3
                                            ++ fst (b_block ((n, vl) :: en) flv (slv + 1) b)))].
     + rewrite <- !app_assoc. cbn [app]. reflexivity.
     + reflexivity.
-    + eapply SSim_app; [exact A1|]. eapply SSim_app; [exact A3|]. eapply SSim_app; [exact A2|].
+    + eapply SSim_app; [exact A1|]. eapply SSim_app; [exact A2|]. eapply SSim_app; [exact A3|].
       eapply SSim_eq; [reflexivity| |eapply SSim_cons; [apply (SSim_add (param_var n vl) [] (seg :: rest))|exact A4]].
       reflexivity.
   - (* SForIn *) intros ns ls es b l IHe IHb Hf Hm flv slv g X seg rest en Heq Hx.
